@@ -35,11 +35,12 @@ var protected = map[string]string{
 	"covertBlocklistSubnets": "policyMu", "covertAllowlistSubnets": "policyMu", "enableCovertAllowlist": "policyMu",
 	"covertBlocklistDomains": "policyMu", "phantomBlocklist": "policyMu",
 	"generations": "genMutex", "lvStats": "lvMutex", "ttStats": "ttMutex",
+	"ingestChan": "ingestChanMu",
 }
 
-var mutexes = map[string]bool{"m": true, "reloadMu": true, "policyMu": true, "genMutex": true, "lvMutex": true, "ttMutex": true}
+var mutexes = map[string]bool{"m": true, "reloadMu": true, "policyMu": true, "genMutex": true, "lvMutex": true, "ttMutex": true, "ingestChanMu": true}
 
-var muOrder = []string{"m", "policyMu", "reloadMu", "genMutex", "lvMutex", "ttMutex"}
+var muOrder = []string{"m", "policyMu", "reloadMu", "genMutex", "lvMutex", "ttMutex", "ingestChanMu"}
 
 type span struct{ from, to token.Pos }
 
